@@ -415,7 +415,15 @@ func (fr *frame) exec(instr ssa.Instruction) {
 		fr.env[in] = &Map{KT: mt.Key(), VT: mt.Elem()}
 	case *ssa.MakeSlice:
 		n := e.concretize(e.asInt(fr.get(in.Len)), 0, 1024, "make slice len")
-		c := e.concretize(e.asInt(fr.get(in.Cap)), 0, 1<<20, "make slice cap")
+		var c int64
+		if ct := e.asInt(fr.get(in.Cap)); ct.IsConst() {
+			c = ct.SVal()
+		} else {
+			// a symbolic capacity is not concretised: capacity is observable only through cap()
+			// and through aliasing of appends within capacity, neither of which Helios relies on
+			e.res.Intrinsics["make-slice-with-symbolic-capacity"]++
+			c = n
+		}
 		if c < n {
 			c = n
 		}
